@@ -30,10 +30,11 @@ OnAead(e) ==
   ELSE IF c.phase = "resp"
   THEN IF e.ok # 1 THEN [why |-> "C14:response-could-not-be-protected", c |-> c]
        ELSE IF e.key # c.keys.skey THEN [why |-> "C14:response-protected-with-a-key-other-than-the-derived-sender-key", c |-> c]
-       ELSE IF e.pt # Plaintext(c.resp.code, Opts(c.resp.opts), c.resp.pl) THEN [why |-> "C14:plaintext-is-not-code-class-e-options-payload", c |-> c]
-       ELSE IF e.nonce # c.nonce THEN [why |-> "C14:response-nonce-is-not-the-request-nonce", c |-> c]
+       ELSE IF e.pt # (IF c.obs \in {"reg", "notify"} THEN PlaintextResponse(c.resp.code, WithObserve(Opts(c.resp.opts)), c.resp.pl)
+                       ELSE Plaintext(c.resp.code, Opts(c.resp.opts), c.resp.pl))
+            THEN [why |-> "C14:plaintext-is-not-code-class-e-options-payload", c |-> c]
        ELSE IF e.aad # Aad(c.sid, c.piv) THEN [why |-> "C14:response-aad-does-not-name-the-request-kid-and-partial-iv", c |-> c]
-       ELSE [why |-> "", c |-> [c EXCEPT !.aead = e, !.phase = "respwire"]]
+       ELSE [why |-> "", c |-> [c EXCEPT !.aead = e, !.phase = "respwire"]]          \* the nonce is judged when the option value on the wire is known
   ELSE [why |-> "", c |-> c]
 
 OnWire(e) ==
@@ -56,16 +57,28 @@ OnWire(e) ==
        ELSE [why |-> "", c |-> [c EXCEPT !.phase = "libresp"]]
   ELSE IF c.phase = "respwire" /\ e.from = "s"
   THEN IF d.ok # "ok" THEN [why |-> "C14:protected-response-is-not-a-well-formed-message", c |-> c]
-       ELSE IF ~OuterOk(d.m.opts, Opts(c.resp.opts)) THEN [why |-> "C14:outer-options-are-not-the-class-u-options-plus-the-oscore-option", c |-> c]
-       ELSE IF d.m.code # OuterCodeResponse(Opts(c.resp.opts)) THEN [why |-> "C14:wrong-outer-code", c |-> c]
-       ELSE IF OscoreValue(d.m.opts) # OptionValueResponse THEN [why |-> "C14:oscore-option-value-is-not-the-compressed-cose-object", c |-> c]
-       ELSE IF d.m.pl # c.aead.ct THEN [why |-> "C14:payload-on-the-wire-is-not-the-ciphertext", c |-> c]
-       ELSE [why |-> "", c |-> [c EXCEPT !.phase = "cligot"]]
+       ELSE LET ro == IF c.obs \in {"reg", "notify"} THEN WithObserve(Opts(c.resp.opts)) ELSE Opts(c.resp.opts)
+                v == OscoreValue(d.m.opts)
+                piv == PivOf(v)
+            IN IF ~OuterOk(d.m.opts, ro) THEN [why |-> "C14:outer-options-are-not-the-class-u-options-plus-the-oscore-option", c |-> c]
+               ELSE IF d.m.code # OuterCodeResponse(ro) THEN [why |-> "C14:wrong-outer-code", c |-> c]
+               ELSE IF v = OptionValueResponse
+               THEN IF c.aead.nonce # c.nonce THEN [why |-> "C14:response-nonce-is-not-the-request-nonce", c |-> c]
+                    ELSE IF d.m.pl # c.aead.ct THEN [why |-> "C14:payload-on-the-wire-is-not-the-ciphertext", c |-> c]
+                    ELSE [why |-> "", c |-> [c EXCEPT !.phase = "cligot"]]
+               ELSE IF v \notin {OptionValueResponsePiv(piv, c.rid, FALSE), OptionValueResponsePiv(piv, c.rid, TRUE)}
+                    THEN [why |-> "C14:oscore-option-value-is-not-the-compressed-cose-object", c |-> c]
+               ELSE IF c.aead.nonce # Nonce(c.rid, piv, c.keys.iv) THEN [why |-> "C14:response-nonce-not-built-from-the-responders-id-and-partial-iv", c |-> c]
+               ELSE IF d.m.pl # c.aead.ct THEN [why |-> "C14:payload-on-the-wire-is-not-the-ciphertext", c |-> c]
+               ELSE [why |-> "", c |-> [c EXCEPT !.phase = "cligot"]]
   ELSE [why |-> "", c |-> c]
 
 Step(e) ==
   CASE e.e = "Keys" -> [why |-> "", c |-> [c EXCEPT !.keys = e]]
-    [] e.e = "Exchange" -> [why |-> "", c |-> [c EXCEPT !.phase = "idle", !.pivb = e.pivb]]
+    [] e.e = "Exchange" -> [why |-> "", c |-> [c EXCEPT !.phase = "idle", !.pivb = e.pivb,
+                                                      !.obs = IF "observe" \in DOMAIN e THEN (IF e.observe = 0 THEN "reg" ELSE "cancel") ELSE "none"]]
+    [] e.e = "Notify" -> [why |-> "", c |-> [c EXCEPT !.phase = "srvdone", !.obs = "notify"]]       \* the library runs the handler itself
+    [] e.e = "NotifyDone" -> [why |-> IF c.phase = "done" THEN "" ELSE "C14:notification-did-not-round-trip", c |-> [c EXCEPT !.phase = "idle"]]
     [] e.e = "Msg" /\ e.side = "c" -> [why |-> "", c |-> [c EXCEPT !.req = e, !.phase = "req"]]
     [] e.e = "Msg" /\ e.side = "s" -> [why |-> IF c.phase = "srvdone" THEN "" ELSE "C14:server-handler-ran-without-a-verified-request", c |-> [c EXCEPT !.resp = e, !.phase = "resp"]]
     [] e.e = "Aead" -> OnAead(e)
@@ -77,6 +90,10 @@ Step(e) ==
     [] e.e = "Got" /\ e.side = "c" ->
          IF c.phase = "libresp" THEN [why |-> "", c |-> [c EXCEPT !.phase = "libdone"]]
          ELSE IF c.phase # "cligot" THEN [why |-> "C14:client-handler-obtained-a-response-that-was-not-the-protected-one", c |-> c]
+         ELSE IF c.obs \in {"reg", "notify"}
+              THEN IF e.code = c.resp.code /\ e.pl = c.resp.pl /\ WithoutObserve(Opts(e.opts)) = WithoutObserve(Opts(c.resp.opts)) /\ HasObserve(Opts(e.opts))
+                   THEN [why |-> "", c |-> [c EXCEPT !.phase = "done"]]
+                   ELSE [why |-> "C14:unprotected-notification-differs-from-the-original", c |-> c]
          ELSE IF ~Same(e, c.resp) THEN [why |-> "C14:unprotected-response-differs-from-the-original", c |-> c]
          ELSE [why |-> "", c |-> [c EXCEPT !.phase = "done"]]
     [] e.e = "Done" -> [why |-> IF c.phase = "done" /\ e.handled = 1 THEN ""
@@ -90,13 +107,14 @@ Step(e) ==
     [] OTHER -> [why |-> "", c |-> c]
 
 InitC == [keys |-> [ckey |-> << >>, skey |-> << >>, iv |-> << >>], sid |-> << >>, idctx |-> << >>, hasIdctx |-> FALSE, phase |-> "idle",
-          req |-> NoRec, resp |-> NoRec, aead |-> [nonce |-> << >>, aad |-> << >>, ct |-> << >>], piv |-> << >>, nonce |-> << >>, pivb |-> <<-1>>]
+          req |-> NoRec, resp |-> NoRec, aead |-> [nonce |-> << >>, aad |-> << >>, ct |-> << >>], piv |-> << >>, nonce |-> << >>, pivb |-> <<-1>>,
+          rid |-> << >>, obs |-> "none"]       \* obs: "reg" (response to an Observe registration), "notify", "cancel", "none"
 Init == /\ l = 1 /\ rej = << >> /\ cur = -1 /\ skip = TRUE /\ c = InitC /\ nexec = 0 /\ nx = 0 /\ ntamper = 0
 Consume ==
   /\ l <= Len(TraceLog)
   /\ LET e == TraceLog[l] IN
      IF e.e = "Reset"
-     THEN /\ cur' = e.id /\ skip' = FALSE /\ c' = [InitC EXCEPT !.sid = e.sidb, !.idctx = e.idctxb, !.hasIdctx = e.hasidctx] /\ nexec' = nexec + 1
+     THEN /\ cur' = e.id /\ skip' = FALSE /\ c' = [InitC EXCEPT !.sid = e.sidb, !.rid = e.ridb, !.idctx = e.idctxb, !.hasIdctx = e.hasidctx] /\ nexec' = nexec + 1
           /\ UNCHANGED <<rej, nx, ntamper>>
      ELSE IF skip /\ e.e # "Crash" THEN UNCHANGED <<rej, cur, skip, c, nexec, nx, ntamper>>
      ELSE LET r == Step(e) IN
